@@ -120,6 +120,7 @@ def run_standins(standins, tier, seed):
         r = run_oracle(s["oracle"], tier, seed)
         r["name"] = s["oracle"]
         r["stands_in_for"] = s.get("for", "")
+        r["ignore_prefix"] = s.get("ignore_prefix", [])
         out.append(r)
     return out
 
